@@ -188,6 +188,8 @@ func Marshal(data any, args ...any) (out []byte, err error) {
 		wr, _ = marshalPool.Get().(*Writer)
 		defer marshalPool.Put(wr)
 	} else {
+		// strict only for this call: the Writer belongs to the caller
+		defer func(strict bool) { wr.strict = strict }(wr.strict)
 		wr.strict = true
 	}
 	defer func() {
